@@ -1,4 +1,5 @@
 import KoordVerif.Model.C08
+import KoordVerif.Proofs.C08ExtConc
 import KoordVerif.Generated.C08
 /-
 Tie lemmas for C08: facts re-extracted from /repo's current source on every run.
@@ -7,7 +8,13 @@ Tie lemmas for C08: facts re-extracted from /repo's current source on every run.
    Insert→Delete (the syntactic form of `delete_add_inverse`),
  * every nodeInfo field addPod touches is reassigned on every path of AddOrUpdateNodeMetric before it
    replays addPod over n.podInfos (the "same context" premise of `cache_eq_rebuild`; the pre-repair
-   code assigned `updateTime` only under an `if`, which this lemma rejects).
+   code assigned `updateTime` only under an `if`, which this lemma rejects),
+ * the lock / retry structure the small-step model Proofs/C08ExtConc.lean is written from: two attempts in both
+   retry loops; the `deleted` flag read before Lock (touching nothing else of the nodeInfo) and again as the first
+   statement under the lock in both add-type methods; flag check - Lock - flag check - work - tryCleanup in both
+   delete-type methods; a created nodeInfo is stored locked; and tryCleanup runs CompareAndDelete BEFORE
+   `deleted = true` (the pre-repair order is the shape `Conc.preRepair`, which loses events:
+   `Conc.pre_repair_counterexample`).
 -/
 namespace KoordVerif.C08
 open KoordVerif.Generated
@@ -25,5 +32,25 @@ theorem tie_delete_mirrors_add : C08.deleteMirrorsAdd = true := by decide
 theorem tie_metric_resets_context :
     (C08.addPodFields.all fun f => C08.metricResetFields.contains f) = true ∧
     C08.metricRebuildsFromPods = true := by decide
+
+/-- the protocol shape read off the source -/
+def extractedShape : Conc.Shape :=
+  { bound := C08.assignAttempts,
+    fastCheck := C08.addPodSteps.take 2 == ["check", "lock"],
+    recheck := (C08.addPodSteps.drop 2).take 2 == ["defer-unlock", "check"],
+    flagFirst := C08.cleanupOrder != ["cad", "flag"],
+    atomicCleanup := false }
+
+theorem tie_conc_shape : extractedShape = Conc.asWritten ∧ C08.metricAttempts = C08.assignAttempts := by decide
+
+theorem tie_conc_sections :
+    C08.addPodSteps = ["check", "lock", "defer-unlock", "check", "work"] ∧ C08.addPodStepsPreLock = [] ∧
+    C08.addMetricSteps = ["check", "work", "lock", "defer-unlock", "check", "work"] ∧ C08.addMetricStepsPreLock = [] ∧
+    C08.delPodSteps = ["check", "lock", "defer-unlock", "check", "work", "cleanup"] ∧
+    C08.delMetricSteps = ["check", "lock", "defer-unlock", "check", "work", "cleanup"] ∧
+    C08.fastCheckReleasesCreated = true ∧ C08.createdLocked = true := by decide
+
+theorem tie_cleanup_order :
+    C08.cleanupOrder = ["cad", "flag"] ∧ C08.cleanupCond = "n.nodeMetric == nil && len(n.podInfos) == 0" := by decide
 
 end KoordVerif.C08
